@@ -575,6 +575,12 @@ pub fn cmp_vals(a: &Val, b: &Val) -> R<Ordering> {
         (Val::Int(x), Val::Int(y)) => Ok(x.cmp(y)),
         (Val::Str(x), Val::Str(y)) => Ok(x.as_bytes().cmp(y.as_bytes())),
         (Val::Bool(x), Val::Bool(y)) => Ok(x.cmp(y)),
+        (Val::Date32(x), Val::Date32(y)) => Ok(x.cmp(y)),
+        (Val::Date64(x), Val::Date64(y)) => Ok(x.cmp(y)),
+        (Val::Ts(u1, x), Val::Ts(u2, y)) if u1 == u2 => Ok(x.cmp(y)),
+        (Val::Dec(x, _, s1), Val::Dec(y, _, s2)) if s1 == s2 => Ok(x.cmp(y)),
+        (Val::Bytes(x), Val::Bytes(y)) => Ok(x.cmp(y)),
+        (Val::F32(_), Val::F32(_)) | (Val::F16(_), Val::F16(_)) => Ok(total_f64(a.as_f64().unwrap(), b.as_f64().unwrap())),
         (Val::F64(_), _) | (_, Val::F64(_)) => {
             let x = a.as_f64().ok_or(RmErr::Unsupported("cmp".into()))?;
             let y = b.as_f64().ok_or(RmErr::Unsupported("cmp".into()))?;
